@@ -512,6 +512,7 @@ def enumerate_schedules(steps, max_preempt=2, stride=1):
 #   ['form_see']             record app.request.forms / cookies / body
 #   ['abort', code]          ombott.abort(code, tok)            (ends the script)
 #   ['boom']                 raise RuntimeError(tok)            (ends the script: 500 page)
+#   ['redirect', '?to=..']   ombott.redirect(target)            (ends the script)
 #   ['gen', n]               return a generator of n pieces that looks at the request between pieces (ends the script)
 
 _tl = threading.local()
@@ -629,6 +630,12 @@ def _interp(fr):
             cq = [p.strip().split('=', 1) for p in fr['cookie'].split(';')] if fr['cookie'] else []
             want = dict(forms=sorted(fq), cookies=sorted(cq), body=fr['form'] or '')
             fr['log'].append(dict(kind='form', tok=fr['tok'], got=got, want=want))
+        elif kind == 'redirect':
+            # ombott.redirect(target) (ends the script): 303 to the target resolved against THIS request's URL
+            fr['w_final'] = 'redirect'
+            fr['w_status'] = 303
+            fr['w_location'] = 'http://localhost' + fr['path'] + act[1]
+            ombott.redirect(act[1])
         elif kind == 'abort':
             fr['w_final'] = 'error'
             fr['w_status'] = act[1]
@@ -704,7 +711,7 @@ def do_call(apps, call, log, environ=None, path=None):
     hdrs = sorted([k, v] for k, v in st.get('h', []))
     rec = dict(kind='response', tok=tok, status=st.get('s'), hdrs=hdrs, body=body_out.decode('latin1'),
                accept_json=(env.get('HTTP_ACCEPT') or '').startswith('application/json'),
-               w_final=fr['w_final'], w_status=fr['w_status'], w_body=fr['w_body'],
+               w_final=fr['w_final'], w_status=fr['w_status'], w_body=fr['w_body'], w_location=fr.get('w_location'),
                w_hdrs=sorted([k, v] for k, v in fr['w_hdrs'].items()),
                w_cookies=sorted([k, v] for k, v in fr['w_cookies'].items()))
     log.append(rec)
@@ -1007,6 +1014,12 @@ def arrangement_failure(case, obs):
                                {k: rec['got'].get(k) for k in diff + extra}, {k: rec['want'][k] for k in diff}))
             elif rec['kind'] == 'response':
                 tok = rec['tok']
+                if rec['w_final'] == 'redirect':
+                    loc = [h[1] for h in rec['hdrs'] if h[0] == 'Location']
+                    if not (rec['status'] or '').startswith('303') or loc != [rec['w_location']]:
+                        return ('redirect(): thread %d: call %s answered %r with Location %s, expected 303 to %s'
+                                % (ti, tok, rec['status'], loc, rec['w_location']))
+                    continue
                 text = '%s %s %s' % (rec['status'], rec['hdrs'], rec['body'])
                 for other in toks:
                     if other != tok and not tok.startswith(other) and not other.startswith(tok) and other in text:
